@@ -241,6 +241,51 @@ def check_handlers(ix, rep, cls, hs):
                             rep.fail('R-EXPL-PAIR', where, sym, slot + ':bounds', 'helper is given (%s) instead of (begin, end)' % ', '.join(ast.unparse(a) for a in c.args[2:]), c.lineno)
             elif nc.name not in ('Iff', 'Xor'):
                 rep.fail('R-EXPL-PAIR', where, sym, slot + ':helpers', 'handler does not choose the helper by polarity', f.node.lineno)
+        # operand binding: every way the handler reaches an operand (results[children[k]], visit(children[k], ...)) is used for both operands of a
+        # binary node, the helper gets (signal of operand 0, signal of operand 1) and its k-th result goes to operand k
+        if ix.is_subclass(nc, ix.find_class('rtamt.syntax.node.binary_node', 'BinaryNode')):
+            elem = f.node.args.args[1].arg
+            import re as _re
+            templ = {}
+            for x in ast.walk(f.node):
+                if isinstance(x, (ast.Subscript, ast.Call)):
+                    txt = ast.unparse(x)
+                    m_ = _re.search(r'%s\.children\[(\d)\]' % _re.escape(elem), txt)
+                    if m_ and txt.count('%s.children[' % elem) == 1 and (txt.startswith('self.spec.results[') or txt.startswith('self.visit(')):
+                        key = 'results' if txt.startswith('self.spec.results[') else 'visit'
+                        templ.setdefault(key, set()).add(int(m_.group(1)))
+            bslot = slot + ':operands'
+            bad_t = [k_ for k_, v_ in templ.items() if v_ != {0, 1}]
+            sig = {}
+            for st in f.node.body:
+                if isinstance(st, ast.Assign) and isinstance(st.targets[0], ast.Name) and ast.unparse(st.value).startswith('self.spec.results[%s.children[' % elem):
+                    sig[st.targets[0].id] = int(ast.unparse(st.value).split('children[')[1][0])
+            order_bad = None
+            res_bad = None
+            for c in ast.walk(f.node):
+                if isinstance(c, ast.Call) and isinstance(c.func, ast.Name) and c.func.id.startswith('explain_') and len(c.args) >= 3:
+                    ks = [sig.get(a.id) if isinstance(a, ast.Name) else None for a in c.args[:2]]
+                    if None not in ks and ks != [0, 1]:
+                        order_bad = c
+            for st in ast.walk(f.node):
+                if isinstance(st, ast.Assign) and isinstance(st.targets[0], ast.Tuple) and len(st.targets[0].elts) == 2 and isinstance(st.value, ast.Call) \
+                        and isinstance(st.value.func, ast.Name) and st.value.func.id.startswith('explain_'):
+                    r0, r1 = [e.id for e in st.targets[0].elts if isinstance(e, ast.Name)][:2]
+                    for c in ast.walk(f.node):
+                        if isinstance(c, ast.Call) and D._self_call(c) == 'visit' and len(c.args) == 2 and isinstance(c.args[1], ast.List) and c.args[1].elts \
+                                and isinstance(c.args[1].elts[0], ast.Name):
+                            k_ = 0 if ast.unparse(c.args[0]).endswith('children[0]') else 1
+                            if c.args[1].elts[0].id in (r0, r1) and c.args[1].elts[0].id != (r0, r1)[k_]:
+                                res_bad = c
+            if bad_t:
+                rep.fail('R-EXPL-PAIR', where, sym, bslot, 'the handler of the binary operator %s reaches its operands through %s for operand %s only: the other operand\'s '
+                         'signal is never read (copy of the wrong child), so its samples are explained from the wrong robustness' % (nc.name, bad_t[0], sorted(templ[bad_t[0]])), f.node.lineno)
+            elif order_bad is not None:
+                rep.fail('R-EXPL-PAIR', where, sym, bslot, 'the helper is given the operand signals in the order %s' % ast.unparse(order_bad)[:80], order_bad.lineno)
+            elif res_bad is not None:
+                rep.fail('R-EXPL-PAIR', where, sym, bslot, 'the intervals computed for one operand are passed to the other: %s' % ast.unparse(res_bad)[:80], res_bad.lineno)
+            elif templ:
+                rep.ok('R-EXPL-PAIR', where, sym, bslot, 'both operands are read and explained, in (left, right) order', f.node.lineno)
         # polarity passed to the operands
         visits = [c for c in ast.walk(f.node) if isinstance(c, ast.Call) and D._self_call(c) == 'visit' and len(c.args) == 2 and isinstance(c.args[1], ast.List) and len(c.args[1].elts) == 2]
         for c in visits:
